@@ -1,6 +1,7 @@
 import TantivyModel.Driver.Proto
 import TantivyModel.Model.TopN
 import TantivyModel.Model.Wand
+import TantivyModel.Model.BlockWand
 /-!
 Line protocol of the C06 model. Keys travel as integers (the harness maps real keys to ranks
 that preserve the comparator's order), addresses as naturals.
@@ -16,6 +17,10 @@ that preserve the comparator's order), addresses as naturals.
   blocks `bm:doc@score,doc@score;bm:…` (scores, bounds and thresholds as order-preserving
   naturals), callback policy `kth <K>` | `stair 0` | `const <θ>`; answer: the documents offered
   to the callback, `|`, the final threshold.
+* `bwand <policy> <arg bits> <initial bits> <scorers>` — the mirrored `block_wand` loop in Float32:
+  scorers separated by `/`, each `max;tailMax;tailLoaded;cost;last:bm,…;doc@score,…` (floats as bit
+  patterns, `-` for an empty list); answer `ok|doc@scorebits,…|threshold bits`, `assert` or `fuel`.
+* `binter …` — the same for `block_wand_intersection`.
 -/
 namespace TantivyModel.Driver.C06
 open TantivyModel TantivyModel.Proto TantivyModel.TopN
@@ -47,9 +52,9 @@ def splitSegs : List (Entry Int) → List Nat → Option (List (List (Entry Int)
     if n ≤ l.length then (splitSegs (l.drop n) ns).map (fun r => l.take n :: r) else none
 
 /-- per-segment `TopNHeap`, fruits in heap (here: sorted) order, then `merge_top_k` -/
-def scoreSearch (gt : Int → Int → Bool) (sel : List (Entry Int) → List (Entry Int)) (K O : Nat)
+def scoreSearch (gt : Int → Int → Bool) (_sel : List (Entry Int) → List (Entry Int)) (K O : Nat)
     (segs : List (List (Entry Int))) : List (Entry Int) :=
-  mergeTopK gt sel K O (segs.map fun d => (d.foldl (heapPush gt) (Heap.new (O + K))).heap)
+  mergeTopK gt K O (segs.map fun d => (d.foldl (heapPush gt) (Heap.new (O + K))).heap)
 
 /-- callback policies of the correspondence run (thresholds never decrease) -/
 structure CbState where
@@ -80,7 +85,83 @@ def parseBlock (s : String) : Option (Wand.Block Nat) :=
     | _, _ => none
   | _ => none
 
+/-! ### the mirrored multi-scorer loops, in Float32 -/
+
+def f32? (s : String) : Option Float32 :=
+  s.toNat?.bind fun n => if n < 4294967296 then some (Float32.ofBits (UInt32.ofNat n)) else none
+
+structure FCb where
+  best : List Float32 := []
+  θ : Float32
+  calls : List (Nat × Float32) := []
+
+def fmax (a b : Float32) : Float32 := if a < b then b else a
+
+/-- the callback policies of the harness (thresholds never decrease) -/
+def fcbOf (policy : String) (arg : Float32) (k : Nat) (s : FCb) (d : Nat) (sc : Float32) : FCb × Float32 :=
+  let best := if policy == "kth" then (TopN.isort (fun a b => decide (b ≤ a)) (sc :: s.best)).take k else s.best
+  let θ' := match policy with
+    | "kth" => if best.length = k then fmax (best.getLast?.getD s.θ) s.θ else s.θ
+    | "stair" => fmax sc s.θ
+    | _ => fmax arg s.θ
+  ({ best := best, θ := θ', calls := s.calls ++ [(d, sc)] }, θ')
+
+def parsePairs (s : String) : Option (List (Nat × Float32)) :=
+  if s == "-" then some [] else (s.splitOn ",").mapM fun e =>
+    match e.splitOn "@" with
+    | [d, sc] => match d.toNat?, f32? sc with
+      | some d, some sc => some (d, sc)
+      | _, _ => none
+    | _ => none
+
+def parseBlocksF (s : String) : Option (List (Nat × Float32)) :=
+  if s == "-" then some [] else (s.splitOn ",").mapM fun e =>
+    match e.splitOn ":" with
+    | [d, sc] => match d.toNat?, f32? sc with
+      | some d, some sc => some (d, sc)
+      | _, _ => none
+    | _ => none
+
+def parseScorer (s : String) : Option (BlockWand.TS Float32) :=
+  match s.splitOn ";" with
+  | [mx, tm, tl, cost, blocks, posts] =>
+    match f32? mx, f32? tm, cost.toNat?, parseBlocksF blocks, parsePairs posts with
+    | some mx, some tm, some cost, some bs, some ps =>
+      some { rest := ps, maxScore := mx, blocks := bs, skip := 0, tailMax := tm, tailLoaded := tl == "1", cost := cost }
+    | _, _, _, _, _ => none
+  | _ => none
+
+def showCalls (st : FCb) (θ : Float32) : String :=
+  "ok|" ++ (if st.calls.isEmpty then "-" else ",".intercalate (st.calls.map fun c => s!"{c.1}@{c.2.toBits.toNat}"))
+    ++ "|" ++ toString θ.toBits.toNat
+
 def handle : List String → String
+  | ["bwand", policy, arg, initial, scorers] =>
+    match f32? arg, f32? initial, (scorers.splitOn "/").mapM parseScorer with
+    | some arg, some θ0, some ss =>
+      if policy == "kth" ∨ policy == "stair" ∨ policy == "const" then
+        let k := if policy == "kth" then arg.toBits.toNat else 0
+        let fuel := (ss.map (·.rest.length)).sum * 4 + 16
+        match BlockWand.blockWand (fcbOf policy arg k) fuel (({ θ := θ0 } : FCb), θ0) ss with
+        | .ok (st, θ) => showCalls st θ
+        | .assertFailed => "assert"
+        | .skipAhead => "skip-ahead"
+        | .outOfFuel => "fuel"
+      else "bad-op"
+    | _, _, _ => "bad-op"
+  | ["binter", policy, arg, initial, scorers] =>
+    match f32? arg, f32? initial, (scorers.splitOn "/").mapM parseScorer with
+    | some arg, some θ0, some ss =>
+      if policy == "kth" ∨ policy == "stair" ∨ policy == "const" then
+        let k := if policy == "kth" then arg.toBits.toNat else 0
+        let fuel := (ss.map (·.rest.length)).sum * 2 + (ss.map (·.blocks.length)).sum * 2 + 16
+        match BlockWand.blockWandInter (fcbOf policy arg k) fuel (({ θ := θ0 } : FCb), θ0) ss with
+        | .ok (st, θ) => showCalls st θ
+        | .assertFailed => "assert"
+        | .skipAhead => "skip-ahead"
+        | .outOfFuel => "fuel"
+      else "bad-op"
+    | _, _, _ => "bad-op"
   | ["wand1", policy, arg, initial, blocks] =>
     match arg.toNat?, initial.toNat?, (if blocks == "-" then some [] else (blocks.splitOn ";").mapM parseBlock) with
     | some arg, some θ0, some bs =>
